@@ -30,7 +30,7 @@ VERIF = os.path.dirname(os.path.abspath(__file__))
 REPO = os.environ.get("VERIF_REPO", "/repo")
 BUILD = os.environ.get("VERIF_BUILD", os.path.join(VERIF, "build"))
 JOBS = int(os.environ.get("VERIF_JOBS", "16"))
-MEM_GB = int(os.environ.get("VERIF_MEM_GB", "12"))
+MEM_GB = int(os.environ.get("VERIF_MEM_GB", "20"))
 
 GLIB_CFLAGS = subprocess.run(["pkg-config", "--cflags", "glib-2.0"], capture_output=True,
                              text=True).stdout.split()
@@ -40,7 +40,7 @@ CBMC_BASE = ["--unwinding-assertions", "--pointer-overflow-check", "--signed-ove
              "--object-bits", "11"]
 
 
-MODEL_UNWIND = ["note_edges.0:17", "verif_all_free.0:17", "verif_locks_reset.0:17", "g_array_append_vals.0:260", "g_array_remove_range.0:260",
+MODEL_UNWIND = ["note_edges.0:17", "verif_all_free.0:17", "verif_locks_reset.0:17", "g_array_append_vals.0:6", "g_array_append_vals.1:260", "g_array_append_vals.2:260", "g_array_remove_range.0:260",
                 "verif_locks_reset.1:17"]
 
 
@@ -56,7 +56,7 @@ class Q:
     def __init__(self, name, harness, srcs=(), env=None, defs=None, unwind=8, unwindset=(),
                  instr=(), cbmc=(), tier="quick", required=True, timeout=None, entry="harness",
                  scaled=(), expect_fail=None, solver=None, native=False, note="",
-                 repo_defs=None, leak=False, nowitness=False, pre=None):
+                 repo_defs=None, leak=False, nowitness=False, pre=None, checks=True):
         self.name = name
         self.harness = harness
         self.srcs = list(srcs)
@@ -78,6 +78,7 @@ class Q:
         self.repo_defs = dict(repo_defs or {})
         self.leak = leak
         self.nowitness = nowitness
+        self.checks = checks            # False: functional query, CBMC's memory-safety/overflow instrumentation off
         self.pre = pre                  # callable(wd, repo): generate headers into wd before compiling
 
 
@@ -175,6 +176,9 @@ def cbmc_cmd(q, gb, witness, solver):
     cmd = ["cbmc", gb, "--function", q.entry, "--unwind", str(q.unwind)]
     cmd += ["--unwindset", ",".join(MODEL_UNWIND + q.unwindset)]
     cmd += CBMC_BASE + q.cbmc
+    if not q.checks:
+        cmd = [c for c in cmd if c not in ("--pointer-overflow-check", "--signed-overflow-check",
+                                            "--undefined-shift-check")] + ["--no-standard-checks"]
     if q.leak and not witness:
         cmd += ["--memory-leak-check"]
     if witness:
